@@ -127,7 +127,7 @@ class LeafVisitStage(object):
             self.huge = True
             self.coordsys = ToastCoordinateSystem.ASTRONOMICAL
             return
-        if LARGE_OK[0] and ch.draw(120, kind="large_leaf_set") == 119:
+        if LARGE_OK[0] and ch.draw(500 if common.thorough() else 120, kind="large_leaf_set") == 0:
             # now and then a layer with thousands of leaves (hundreds per worker): size-dependent code paths
             if ch.draw(2, kind="large_filtered") == 1:
                 # a filtered TOAST layer with an 'odd' number of leaves (a rejected subtree plus a sprinkling of leaves)
